@@ -10,7 +10,8 @@ import NdnModel.Fib
     answer: one token per event.  Interest token:
       v2/v1:  `h<hid>` or `none`, then per reply `|T=<pkts>` `|F=<pkts>` `|N=<pkts>` `|E=Other`
               (T/F = returned True/False, N = returned None (legacy put_raw_packet), pkts = hex list)
-      disp:   `h<hid>:True` | `none:False` | `err:TypeError`                                        -/
+      disp:   `h<hid>:True` | `none:False` | `err:TypeError`
+    `bad-table` when an entry of lean/NdnGen/C04.lean the model computes with was not recognised                                        -/
 namespace Ndn.Drv.C04
 open Ndn Ndn.Fib
 
@@ -96,6 +97,7 @@ def runShow (fe : String) (f : Fib) : List Ev → List String
 def handle (args : List String) : String :=
   match args with
   | [fe, evs] =>
+    if !tableOk then "bad-table" else
     if fe != "v2" && fe != "v1" && fe != "disp" then "bad-op" else
     match (if evs == "." then some [] else (evs.splitOn ";").mapM parseEv) with
     | some es => "ok " ++ " ".intercalate (runShow fe [] es)
